@@ -9,7 +9,8 @@ mkdir -p $W
 trap 'rm -rf $W' EXIT
 rsync -a --exclude target /repo/ $W/repo/
 if ! git -C $W/repo apply "$PATCH"; then echo "patch does not apply"; exit 2; fi
-rsync -a --exclude .git --exclude replays --exclude seeded /verif/ $W/verif/
+SRC=$(cd "$(dirname "$0")/.." && pwd)
+rsync -a --exclude .git --exclude .claude --exclude replays --exclude seeded $SRC/ $W/verif/
 sed -i "s#\"/repo#\"$W/repo#g" $W/verif/harness/Cargo.toml
 for P in "$@"; do
   (cd $W/verif && VERIF_REPO=$W/repo timeout 3600 ./check $P --tier ${TIER:-quick} > $W/out_$P.txt 2>&1; RC=$?; echo "MUTANT $(basename $(dirname $PATCH))/$(basename $PATCH) $P rc=$RC" >> $W/summary.txt)
